@@ -59,21 +59,32 @@ def bitvec(bits):
     return bytes(out)
 
 
-def write7z(members, with_attrs=True):
-    """members: [(name, data, attributes)] -- data: non-empty bytes = a member with a stream (one solid Copy folder), b"" = zero-length
+def write7z(members, with_attrs=True, declared=None, per_file_folders=False):
+    """declared: {member name: size written in the header} -- the pack stream still carries the member's full bytes (a stream running
+    past the declared end of a member); per_file_folders: one Copy folder per member with a stream instead of one solid folder.
+    members: [(name, data, attributes)] -- data: non-empty bytes = a member with a stream (one solid Copy folder), b"" = zero-length
     file (emptyStream + emptyFile), None = directory (emptyStream), NOSTREAM = a listed file entry for which no stream exists
     (more files than sub-streams / no streams info at all)."""
-    streams = [d for _n, d, _a in members if isinstance(d, bytes) and d]
+    declared = declared or {}
+    named = [(n, d) for n, d, _a in members if isinstance(d, bytes) and d]
+    streams = [d for _n, d in named]
+    sizes = [declared.get(n, len(d)) for n, d in named]
     body = b"".join(streams)
     h = bytearray(b"\x01")
-    if streams:
+    if streams and per_file_folders:
+        h += b"\x04"
+        h += b"\x06" + num(0) + num(len(streams)) + b"\x09" + b"".join(num(len(d)) for d in streams) + b"\x00"
+        h += b"\x07\x0b" + num(len(streams)) + b"\x00" + b"".join(num(1) + b"\x01\x00" for _d in streams)
+        h += b"\x0c" + b"".join(num(z) for z in sizes) + b"\x00"
+        h += b"\x08\x00\x00"
+    elif streams:
         h += b"\x04"
         h += b"\x06" + num(0) + num(1) + b"\x09" + num(len(body)) + b"\x00"
         h += b"\x07\x0b" + num(1) + b"\x00" + num(1) + b"\x01\x00"
-        h += b"\x0c" + num(len(body)) + b"\x00"
+        h += b"\x0c" + num(sum(sizes)) + b"\x00"
         h += b"\x08\x0d" + num(len(streams))
         if len(streams) > 1:
-            h += b"\x09" + b"".join(num(len(d)) for d in streams[:-1])
+            h += b"\x09" + b"".join(num(z) for z in sizes[:-1])
         h += b"\x00\x00"
     h += b"\x05" + num(len(members))
     empty = [d is None or d == b"" for _n, d, _a in members]
@@ -426,10 +437,15 @@ def skip_members():
            ("prog.exe", _txt("exe"), False), ("lib.so", _txt("so"), False), ("in.zip", inner_zip, False), ("deep/a.tar.gz", inner_tgz, False),
            ("B.TGZ", inner_tgz, False), ("c.tar.bz2", inner_tbz, False), ("d.tbz2", inner_tbz, False), ("e.tar.xz", inner_txz, False), ("f.txz", inner_txz, False),
            ("g.tar", inner_tar, False), ("x.7Z", inner_7z, False), ("Mixed.Tar.Gz", inner_tgz, False), ("table.csv", b"k,v\n" + _txt("csv"), True),
-           ("__MACOSX/late.txt", _txt("fork-late"), False), ("other/late.txt", _txt("late"), True)]
+           ("__MACOSX/late.txt", _txt("fork-late"), False), ("other/late.txt", _txt("late"), True),
+           # what `tar -C dir -cf x.tar .` writes: every member as "./path"
+           ("./.env.txt", _txt("dotslash-env"), False), ("./._fork.txt", _txt("dotslash-fork"), False), ("./sub/.hid.md", _txt("dotslash-sub"), False),
+           ("./plain.txt", _txt("dotslash-plain"), True), (".//.double.txt", _txt("dotslash-double"), False), ("a/../.up.txt", _txt("dotdot-hidden"), False),
+           ("./deep/in.zip", inner_zip, False), ("..hidden2.txt", _txt("dotdot-name"), False)]
     forbidden = [_m(t) for t in ("fork-report", "dot", "dot-md", "fork-md", "exe", "so", "nested-zip", "nested-tgz", "nested-tbz", "nested-txz", "nested-tar",
-                                 "nested-7z", "fork-late")]
-    must = [_m(t) for t in ("report", "visible-md", "csv", "late")]
+                                 "nested-7z", "fork-late", "dotslash-env", "dotslash-fork", "dotslash-sub", "dotslash-double", "dotdot-hidden",
+                                 "dotdot-name")]
+    must = [_m(t) for t in ("report", "visible-md", "csv", "late", "dotslash-plain")]
     return mem, forbidden, must
 
 
@@ -511,6 +527,65 @@ def skip_rules():
                 bad = judge(label, name, results, problems, {"forbidden": forbidden, "must": must}, [])
                 if bad:
                     return report(label, name, data, "exhaust", bad[0])
+    return None
+
+
+def declared_sizes(limit=1000):
+    """7z: bytes that follow the declared end of a member in the pack stream never reach a result, and a member whose declared size is
+    within the limit cannot smuggle more than that into memory (one folder per file, and one solid folder)."""
+    from sharepoint2text.parsing.extractors import archive_extractor as ae
+    tail = ("\n" + _m("past-declared-end") + " bytes after the declared end of the member\n").encode() * (3 * limit // 60)
+    a, b = _txt("decl-a"), _txt("decl-b")
+    layouts = [("one member, its stream runs past the declared size", [("a.txt", a + tail, ATTR_FILE)], {"a.txt": len(a)}),
+               ("two members, the last stream runs past the declared size", [("a.txt", a, ATTR_FILE), ("b.txt", b + tail, ATTR_FILE)], {"b.txt": len(b)})]
+    old = ae._config
+    ae._config = dataclasses.replace(old, max_memory_size=limit)
+    try:
+        with Sandbox() as sb:
+            for label, members, declared in layouts:
+                for per_file in (True, False):
+                    for attrs in (True, False):
+                        data = write7z(members, attrs, declared=declared, per_file_folders=per_file)
+                        results, problems = sb.run(data, "decl.7z")
+                        bad = list(problems)
+                        for fp, text in results:
+                            if _m("past-declared-end") in text:
+                                bad.append(f"bytes after the declared end of a member ({declared}) appeared in the result for {fp!r} ({len(text)} characters)")
+                            elif len(text) > limit:
+                                bad.append(f"a result of {len(text)} characters although every declared member size is within the limit {limit}")
+                        if bad:
+                            rp = report(f"7z ({'one folder per file' if per_file else 'solid'}): {label}", "decl.7z", data, "exhaust", bad[0])
+                            rp["inputs"].update(max_memory_size=limit, declared_sizes=declared, actual_sizes={n: len(d) for n, d, _a in members})
+                            return rp
+    finally:
+        ae._config = old
+    return None
+
+
+def name_collisions_7z(limit=1000):
+    """7z members are read back from the temp dir BY PATH: when two entries resolve to one path, the bytes read for a selected member
+    may be those of another entry -- one that is above the limit, a macOS fork, or simply a different member."""
+    from sharepoint2text.parsing.extractors import archive_extractor as ae
+    small, big = _txt("col-small"), _txt("col-big", 3 * limit // 20)
+    layouts = [("two entries named dup.txt: within the limit, then above it", [("dup.txt", small, ATTR_FILE), ("dup.txt", big, ATTR_FILE)], [_m("col-big")]),
+               ("a.txt, then __MACOSX/../a.txt", [("a.txt", small, ATTR_FILE), ("__MACOSX/../a.txt", _txt("col-fork"), ATTR_FILE)], [_m("col-fork")]),
+               ("a.txt within the limit, then ./a.txt above it", [("a.txt", small, ATTR_FILE), ("./a.txt", big, ATTR_FILE)], [_m("col-big")]),
+               ("sub/b.txt, then sub//b.txt above the limit", [("sub/b.txt", small, ATTR_FILE), ("sub//b.txt", big, ATTR_FILE)], [_m("col-big")])]
+    old = ae._config
+    ae._config = dataclasses.replace(old, max_memory_size=limit)
+    try:
+        with Sandbox() as sb:
+            for label, members, forbidden in layouts:
+                for per_file in (False, True):
+                    data = write7z(members, True, per_file_folders=per_file)
+                    results, problems = sb.run(data, "col.7z")
+                    bad = judge(label, "col.7z", results, problems, {"forbidden": forbidden}, [])
+                    if bad:
+                        rp = report(f"7z ({'one folder per file' if per_file else 'solid'}): {label}", "col.7z", data, "exhaust", bad[0])
+                        rp["inputs"].update(max_memory_size=limit, members=[(n, len(d)) for n, d, _a in members])
+                        return rp
+    finally:
+        ae._config = old
     return None
 
 
